@@ -58,7 +58,8 @@ claim('C07',
 claim('C08',
   "Coq theorems: quotas/targets/projects-per-lecturer are spread evenly (length, sum, max-min<=1, larger first, pointwise monotone in "
   "the total so lower<=target<=upper), tie probability 0 gives no parenthesis and 1 one group. File assembly is tied byte-for-byte to "
-  "the code from recorded RNG draws (R_genfile) and every written file is re-read by the C10-proved model importer and judged in Coq "
+  "the code from recorded RNG draws (R_genfile), create_quotas is compared exhaustively on small values and sampled beyond 2^53 (F15 "
+  "repaired) and its result judged by the property's words (M_quota), and every written file is re-read by the C10-proved model importer and judged in Coq "
   "(M_genfile). Also proved: the lists read back from a generated file ARE the drawn lists (pmin..pmax distinct agents of the other side) "
   "and every vector of lengths in [pmin, pmax] results from draws honouring the RNG contract. That numpy draws each with positive "
   "probability, and the tie frequencies, are requests to numpy's RNG (checked), its distribution is trusted: partial.",
@@ -113,7 +114,8 @@ claim('C02',
   "satisfying the MILP contract the run never fails (no builder failure, no duplicate variable name), reports Optimal iff a matching "
   "satisfying the requested constraints exists and Infeasible otherwise; every objective-variable bound admits every attainable value. "
   "Tied to the code by R_lp (problems incl. bounds and name partition); M_status compares the reported status with feasibility by "
-  "enumeration in Coq and flags any escaping exception. F01-F06 repaired (corpus/C02).",
+  "enumeration in Coq and flags any escaping exception. F01-F06 repaired (corpus/C02). Known finding F16 (criterion values of nine or "
+  "more digits come back rounded from CBC's solution file: a feasible run reported Infeasible) is listed in known_findings.json.",
   "C02: CBC assumed to satisfy milp_ok; 'admissible' = -stab only on two-sided instances, distinct criteria, non-negative multipliers "
   "(any generous / greedy cut-off).")
 claim('C03',
@@ -125,7 +127,8 @@ claim('C03',
 claim('C04',
   "Coq theorems: the printed matching is LexOpt for the concatenated stage lists in list order over all feasible matchings (so a later "
   "criterion never worsens an earlier one), and the list order is the position order whatever the flag order (parser theorem). Tied to the "
-  "code by R_lp and R_opts; M_lex judges runs with 2-4 criteria at shuffled flags / gapped positions by enumeration in Coq.",
+  "code by R_lp and R_opts; M_lex judges runs with 2-4 criteria at shuffled flags / gapped positions by enumeration in Coq; M_backend "
+  "records the back end's configuration at every solve (plain exact MILP solve) incl. one instance of more than 5000 residents.",
   "C04: CBC assumed to satisfy milp_ok; flag-order independence of the namespace is argparse's (sampled).")
 claim('C05',
   "Coq theorems: the alpha/beta/gamma rows are sound (every 0/1 point denotes a matching without blocking pair by the SPA-STL definition) "
